@@ -2,8 +2,10 @@
   C19 — the fragmentation encoder is systematic, linear and uses the TS004 parity matrix.
   `encodeWith line` is the encoder for an ARBITRARY parity-line function; `encode = encodeWith (matrixLine fuel)`.
   All theorems hold for every data block, fragment size and redundancy (no bound).
+  Recovery (C19_recovery, C19_recovery_block) is stated for ANY collection of received fragments, in certificate form.
 -/
 import LW.Proofs.Frag
+import LW.Proofs.FragRecover
 namespace LW.C19
 open LW Outcome FragProofs
 
@@ -59,7 +61,103 @@ theorem C19_total (line : Nat → Nat → Option (List Bool)) (hline : ∀ n m, 
   | none => have := key (rowsOf (data.length / size.toNat) size.toNat data) (data.length / size.toNat) red.toNat 0; simp [hp] at this
   | some ps => rfl
 
+/-- every fragment the encoder hands out — data or parity — is the XOR of the data fragments named by its selection vector
+(unit vector for data fragment t, parity-matrix line t − w + 1 for a parity fragment) -/
+theorem C19_fragment_selection (line : Nat → Nat → Option (List Bool)) (data : Bytes) (size red : Int) (out : List Bytes)
+    (h : encodeWith line data size red = ok out) (t : Nat) (f : Bytes) (hf : out[t]? = some f) :
+    ∃ v, selOf line (data.length / size.toNat) t = some v ∧
+      f = xorSelected size.toNat v (rowsOf (data.length / size.toNat) size.toNat data) :=
+  encode_fragment line data size red out h t f hf
+
+/-- recovery, one data fragment: `recv` is ANY collection of fragments of the encoding that arrived, each with its selection
+vector.  If a combination `c` of the received selection vectors is the unit vector of data fragment j (such a `c` exists for
+every j exactly when the vectors have full rank — it is what Gaussian elimination computes), then the same combination of
+the received fragments is data fragment j.  `hlen` holds for the code's line function (`C19_matrix_line_length`). -/
+theorem C19_recovery (line : Nat → Nat → Option (List Bool)) (data : Bytes) (size red : Int) (out : List Bytes)
+    (h : encodeWith line data size red = ok out)
+    (hlen : ∀ n l, line n (data.length / size.toNat) = some l → l.length = data.length / size.toNat)
+    (recv : List (List Bool × Bytes))
+    (hrecv : ∀ p ∈ recv, ∃ t, out[t]? = some p.2 ∧ selOf line (data.length / size.toNat) t = some p.1)
+    (c : List Bool) (j : Nat) (r : Bytes) (hj : (rowsOf (data.length / size.toNat) size.toNat data)[j]? = some r)
+    (hc : combVec (data.length / size.toNat) c (recv.map (·.1)) = unitVec (data.length / size.toNat) j) :
+    xorSelected size.toNat c (recv.map (·.2)) = r := by
+  obtain ⟨hs, hd, -⟩ := encode_structure line data size red out h
+  have hdl : data.length = data.length / size.toNat * size.toNat := by
+    have := Nat.div_add_mod data.length size.toNat
+    rw [hd] at this; rw [Nat.mul_comm]; omega
+  have e : recv.map (·.2) = (recv.map (·.1)).map (fun v => xorSelected size.toNat v (rowsOf (data.length / size.toNat) size.toNat data)) := by
+    rw [List.map_map]
+    apply List.map_congr_left
+    intro p hp
+    obtain ⟨t, ht, hsel⟩ := hrecv p hp
+    obtain ⟨v, hv, hf⟩ := encode_fragment line data size red out h t p.2 ht
+    rw [hsel] at hv
+    cases hv
+    exact hf
+  rw [e]
+  refine recover size.toNat _ _ (rowsOf_length _ _ _) (rowsOf_row_length _ _ data hdl) c _ ?_ j r hj hc
+  intro v hv
+  obtain ⟨p, hp, rfl⟩ := List.mem_map.mp hv
+  obtain ⟨t, -, hsel⟩ := hrecv p hp
+  unfold selOf at hsel
+  split at hsel
+  · rw [← Option.some.inj hsel]; exact unitVec_length _ _
+  · exact hlen _ _ hsel
+
+/-- recovery, whole block: with one such combination per data fragment (full rank) the independent decoder gets the
+original block back, whatever subset of fragments arrived -/
+theorem C19_recovery_block (line : Nat → Nat → Option (List Bool)) (data : Bytes) (size red : Int) (out : List Bytes)
+    (h : encodeWith line data size red = ok out)
+    (hlen : ∀ n l, line n (data.length / size.toNat) = some l → l.length = data.length / size.toNat)
+    (recv : List (List Bool × Bytes))
+    (hrecv : ∀ p ∈ recv, ∃ t, out[t]? = some p.2 ∧ selOf line (data.length / size.toNat) t = some p.1)
+    (cs : List (List Bool)) (hcs : cs.length = data.length / size.toNat)
+    (hfull : ∀ j c, cs[j]? = some c → combVec (data.length / size.toNat) c (recv.map (·.1)) = unitVec (data.length / size.toNat) j) :
+    (cs.map (fun c => xorSelected size.toNat c (recv.map (·.2)))).flatten = data := by
+  obtain ⟨hs, hd, -⟩ := encode_structure line data size red out h
+  have hdl : data.length = data.length / size.toNat * size.toNat := by
+    have := Nat.div_add_mod data.length size.toNat
+    rw [hd] at this; rw [Nat.mul_comm]; omega
+  have e : cs.map (fun c => xorSelected size.toNat c (recv.map (·.2))) = rowsOf (data.length / size.toNat) size.toNat data := by
+    apply List.ext_getElem?
+    intro j
+    rw [List.getElem?_map]
+    cases hcj : cs[j]? with
+    | none =>
+      have : cs.length ≤ j := by simpa using hcj
+      have hl := rowsOf_length (data.length / size.toNat) size.toNat data
+      simp only [Option.map_none]
+      exact (List.getElem?_eq_none (by omega)).symm
+    | some c =>
+      have hjl : j < cs.length := (List.getElem?_eq_some_iff.mp hcj).1
+      have hl := rowsOf_length (data.length / size.toNat) size.toNat data
+      have hjr : j < (rowsOf (data.length / size.toNat) size.toNat data).length := by omega
+      simp only [Option.map_some]
+      rw [C19_recovery line data size red out h hlen recv hrecv c j _ (List.getElem?_eq_getElem hjr) (hfull j c hcj)]
+      exact (List.getElem?_eq_getElem hjr).symm
+  rw [e]
+  exact rowsOf_flatten _ _ data hdl
+
+/-- the code's parity-matrix line has one entry per data fragment -/
+theorem C19_matrix_line_length (fuel n m : Nat) (l : List Bool) (h : matrixLine fuel n m = some l) : l.length = m :=
+  matrixLine_length fuel n m l h
+
 /-! non-vacuity -/
+/- 6 data fragments of 2 bytes, 3 parity fragments; data fragment 0 is lost, fragment 1 and parity fragment 1 (line
+[1,1,0,0,0,0]) arrive: their XOR is data fragment 0, and the hypotheses of C19_recovery are met by this instance -/
+example : xorSelected 2 [true, true] [[3, 4], [2, 6]] = ([1, 2] : Bytes) := by
+  have h : encodeWith (matrixLine fragFuel) [1, 2, 3, 4, 5, 6, 7, 8, 9, 10, 11, 12] 2 3
+      = ok [[1, 2], [3, 4], [5, 6], [7, 8], [9, 10], [11, 12], [2, 6], [15, 0], [5, 14]] := by decide
+  exact C19_recovery (matrixLine fragFuel) [1, 2, 3, 4, 5, 6, 7, 8, 9, 10, 11, 12] 2 3 _ h
+    (fun n l hl => matrixLine_length fragFuel n _ l hl)
+    [(unitVec 6 1, [3, 4]), ([true, true, false, false, false, false], [2, 6])]
+    (by
+      intro p hp
+      simp only [List.mem_cons, List.not_mem_nil, or_false] at hp
+      rcases hp with rfl | rfl
+      · exact ⟨1, by decide, by decide⟩
+      · exact ⟨6, by decide, by decide⟩)
+    [true, true] 0 [1, 2] (by decide) (by decide)
 example : (encode [1, 2, 3, 4, 5, 6, 7, 8] 2 2).isOk = true := by decide
 
 end LW.C19
